@@ -6,7 +6,7 @@ from vlib.common import Report, Violation, HarnessError
 
 QUICK_BOUNDS = [(1, 3, 1, 1), (2, 2, 1, 1), (3, 1, 1, 1), (2, 2, 2, 1)]
 THOROUGH_BOUNDS = [(1, 4, 3, 2), (2, 2, 2, 2), (2, 3, 1, 1), (3, 1, 2, 1)]
-HUGE_BOUNDS = [(3, 2, 1, 1)]      # 2.0e6 states, ~10 min: C02 and C08 thorough only
+HUGE_BOUNDS = [(3, 2, 1, 1), (4, 1, 1, 1)]      # 2.0e6 states (~10 min) and 1.4e5 states (four athletes): C02 and C08 thorough only
 # the same exploration with the bar heights passed as other numeric types (bounds, codec)
 QUICK_CODECS = [((2, 1, 1, 1), 'decimal-mm'), ((2, 2, 1, 1), 'float-cm'), ((2, 2, 1, 1), 'decimal-cm'), ((1, 3, 1, 1), 'float-cm'), ((2, 2, 1, 1), 'decimal-10m'), ((2, 1, 1, 1), 'decimal-1m'),
                 ((2, 1, 1, 1), 'int'), ((2, 2, 1, 1), 'bibs:int'), ((2, 1, 1, 1), 'bibs:default'), ((2, 1, 1, 1), 'bibs:blank'), ((1, 2, 1, 1), 'bibs:none'),
